@@ -35,10 +35,16 @@ CHECKS = {
         "regenerated from errno_status.c; sem_conservation and sem_no_lost_wakeup for the abstract counter on every interleaving. Tie: sem_posix.c is run with sem_wait/sem_trywait/sem_timedwait/clock_gettime wrapped; status, "
         "call count and the abstime received are compared with the model.",
    note="The kernel semaphore, real time and signal delivery are modelled, not verified: the schedule clauses are theorems about an abstract counter composed with the documented behaviour of sem_*.", ref="§5 C17"),
- "C13": dict(cat="translation_validation", tech="Lean 4 executable BitVec model with constants regenerated from digest.c, validated against the implementation and against reference fasthash64/murmur3 copies; injectivity theorems in progress",
-   text="Model = code = reference algorithms on all lengths 0..72 x alignments 0..7 with the buffer flush against ASan-poisoned memory; an implementation-only sensitivity oracle checks seed / block / zero-extension changes. "
-        "Sensitivity theorems (seed_injective, block_injective, length laws, aligned = general) are being added; the unrestricted fasthash64 length clause is false of the algorithm itself (known finding with kernel-checked witness).",
-   note="little-endian platform; 64-bit size_t; purity is by construction of the model (a function of seed and bytes) and observed at two addresses per input.", ref="§5 C13"),
+ "C13": dict(cat="proof", tech="Lean 4 theorems on a BitVec model with constants and multiplier inverses regenerated from digest.c (injectivity via explicit inverses; length law by truncation to 5 bits + decide) and correspondence against implementation and reference hashes",
+   text="Proved for all seeds and byte strings: aligned = general (64 and 32 bit), seed_injective, block_injective (one word-sized block, rest fixed), length_zero_extension32 (full), "
+        "length_zero_extension64 for a non-empty tail and for block-aligned lengths of at most one block; zix_digest = 64-bit variant from the regenerated #if. The unrestricted fasthash64 length clause is FALSE of the algorithm: "
+        "kernel-checked witness length_zero_extension64_counterexample, replayed on the implementation and listed as a known finding. Tie: model = implementation = reference fasthash64/murmur3 on all lengths 0..72 x alignments 0..7 "
+        "with the buffer flush against ASan-poisoned memory, plus an implementation-only sensitivity oracle.",
+   note="little-endian platform; 64-bit size_t; 'nothing outside the buffer is read' is runtime-checked (ASan poisoning), not a theorem.", ref="§5 C13"),
+ "C03": dict(cat="translation_validation", tech="Lean 4 executable model (slot array, tombstones, rehash, callback log) validated white-box against the implementation per call under 5 hash families and 3 record layouts; termination/refinement theorems in progress",
+   text="Per call the status, record, size, the whole slot array, count, n_entries and the callback-argument log are compared with the model; churn generators hold the live count between the thresholds so that empty slots run out; "
+        "each call runs under a CPU watchdog. Side conditions on the regenerated constants are proved; probe termination, map refinement and callback-role theorems are being added.",
+   note="User equality is key identity; equal keys have equal codes (API contract).", ref="§5 C03"),
 }
 
 NOT_YET = "check not built yet in this revision (framework under construction; see DESIGN.md §8)"
